@@ -83,7 +83,7 @@ impl Sched {
 
     /// Runs a driver future to completion. Tasks it spawns run on this
     /// thread whenever the driver yields.
-    pub fn run<F: Future>(&self, f: F) -> F::Output { self.rt.block_on(f) }
+    pub fn run<F: Future>(&self, f: F) -> F::Output { rpki_verif::watched(|| self.rt.block_on(f)) }
 }
 
 
